@@ -300,8 +300,12 @@ YParams(s, i) ==
               IF ~have.ok THEN [ok |-> FALSE, known |-> FALSE, saltstart |-> 0]
               ELSE [ok |-> TRUE, known |-> FALSE, saltstart |-> 0]   \* saltstart 0: not located by the model
 
+\* crypt_yescrypt_rn's size test: the setting may be a complete hash, whose hash part ('$' + 43 characters at the end)
+\* is not echoed and does not count (defect F8 repaired: a result longer than 339 characters is accepted back)
+EchoLen(s) == LET d == LastIndexOf(s, 36, 1) IN IF d > 0 /\ Len(s) - d = 43 THEN d - 1 ELSE Len(s)
 ParseYescrypt(s, tagLen) ==
-  IF Len(s) > 339 THEN Fail(ERANGE)                         \* 384 < set_size + 1 + 43 + 1
+  \* ($gy$ has its own copy of the test, on the whole length: its salts are at most 86 characters, so it is never reached)
+  IF (IF tagLen = 3 THEN EchoLen(s) ELSE Len(s)) > 339 THEN Fail(ERANGE)     \* 384 < echoed part + 1 + 43 + 1
   ELSE LET yp == YParams(s, tagLen + 1) IN
   IF ~yp.ok THEN Fail(EINVAL)
   ELSE IF yp.saltstart = 0 THEN Either(<<>>)
@@ -314,7 +318,7 @@ ParseYescrypt(s, tagLen) ==
 \* scrypt $7$ (crypt-scrypt.c verify_salt + alg-yescrypt-common.c): N_log2 char, r and p as
 \* 5 chars each, then the salt up to the last '$'
 ParseScrypt(s) ==
-  IF Len(s) > 339 THEN Fail(ERANGE)
+  IF EchoLen(s) > 339 THEN Fail(ERANGE)
   ELSE IF Len(s) < 14 THEN Fail(EINVAL)                      \* "$7$" + N + 5 + 5
   ELSE IF \E i \in 4..14 : ~IsB64(s[i]) THEN Fail(EINVAL)
   \* N = 2^N_log2 with N_log2 the value of the 4th character: 0 is refused by the decoder, and yescrypt_kdf
